@@ -68,6 +68,19 @@ pub proof fn lemma_at_step(p0: GdsParser, p1: GdsParser, k: int)
     assert(cstream(b.skip(n)) =~= cstream(b).skip(1));
     assert(cs.skip(k).skip(1) =~= cs.skip(k + 1));
 }
+/// decoding the first record of the data puts the parser at position 1
+pub proof fn lemma_at_first(p1: GdsParser)
+    requires p1.rdr.source.wf(), p1.rdr.source.pos >= 4, rec_at(p1.rdr.source.data@, p1.nxt, p1.rdr.source.pos as int),
+    ensures at(p1, 1),
+{
+    let b = p1.rdr.source.data@; let n = p1.rdr.source.pos as int;
+    lemma_decode_determined(p1.nxt, b.subrange(4, n));
+    assert(rec_total(b) == n);
+    assert(content_of_bytes(b) == content(p1.nxt));
+    assert(cstream(b) == seq![content_of_bytes(b)] + cstream(b.skip(n)));
+    assert(p1.rdr.source.rest() =~= b.skip(n));
+    assert(cstream(b.skip(n)) =~= cstream(b).skip(1));
+}
 /// `rec` decodes the record of `n` bytes at the head of `b` (what read_record guarantees)
 pub open spec fn rec_at(b: Seq<u8>, rec: GdsRecord, n: int) -> bool {
     header_ok(b) && n == de16(b[0], b[1]) && b.len() >= n && rec_num(rec) == b[2] && rec_dtype(rec) == b[3] && payload_matches(rec, b.subrange(4, n))
@@ -87,6 +100,17 @@ impl GdsParser {
     fn invalid<T>(&mut self, record: GdsRecord) -> (r: GdsResult<T>) ensures r is Err, *final(self) == *old(self) { unimplemented!() }
     #[verifier::external_body]
     fn fail<T, M>(&mut self, msg: M) -> (r: GdsResult<T>) ensures r is Err, *final(self) == *old(self) { unimplemented!() }
+//@ fn gds21/src/read.rs :: impl<R> GdsParser<R> :: fn new
+//@   ret r
+//@   sub R5 /mut rdr: GdsReader<R>/ => rdr0: GdsReader
+//@   sub R3 @4eff1433 /Ok\(GdsParser \{([\s\S]*?)\}\)/ => let vp_p = GdsParser {\1}; proof { assert(rdr0.source.rest() =~= rdr0.source.data@); assert(rec_at(vp_p.rdr.source.data@, vp_p.nxt, vp_p.rdr.source.pos as int)); lemma_at_first(vp_p); } Ok(vp_p)
+//@   spec
+//|     requires rdr0.source.wf(), rdr0.source.pos == 0,
+//|     // the parser starts with the FIRST record of the data as its look-ahead: stream position 1
+//|     ensures r is Ok ==> pwf(r->Ok_0) && r->Ok_0.rdr.source.data@ == rdr0.source.data@ && at(r->Ok_0, 1),
+//@   atstart
+//|         let mut rdr = rdr0; // R5: `mut rdr` parameter as a local (Verus: a `mut` parameter cannot be named in the postcondition)
+//@ end
 //@ fn gds21/src/read.rs :: impl<R> GdsParser<R> :: fn next
 //@   ret r
 //@   spec
@@ -278,6 +302,8 @@ pub open spec fn kind_ok(e: GdsElement, open: GdsRecord) -> bool {
         GdsRecord::StructRef => e is GdsStructRef, GdsRecord::ArrayRef => e is GdsArrayRef, GdsRecord::Node => e is GdsNode, _ => false }
 }
 pub open spec fn kinds_ok(es: Seq<GdsElement>, opens: Seq<GdsRecord>) -> bool { es.len() == opens.len() && forall|i: int| 0 <= i < es.len() ==> kind_ok(#[trigger] es[i], opens[i]) }
+/// the elements are the ones some sequence of element-opening records announced, one per record, in order, each of the announced kind
+pub open spec fn kinds_from(es: Seq<GdsElement>) -> bool { exists|opens: Seq<GdsRecord>| #[trigger] kinds_ok(es, opens) }
 /// GRAMMAR STEP of <library> after BGNLIB: LIBNAME sets the name, UNITS the units, BGNSTR appends one structure (which carries BGNSTR's dates)
 pub open spec fn libb_step(l0: GdsLibraryBuilder, s0: Seq<GdsStruct>, r: GdsRecord, l1: GdsLibraryBuilder, s1: Seq<GdsStruct>) -> bool {
     match r {
